@@ -236,8 +236,9 @@ pub fn render_special(s: &FormatSpecial) -> Result<String, Undefined> {
         FormatSpecial::Null => "\0".into(),
         FormatSpecial::Backslash => "\\".into(),
         FormatSpecial::Ascii(v) => match char::from_u32(*v as u32) {
-            Some(c) if *v < 0o200 => c.to_string(),
-            _ => return Err(Undefined::Other("octal escape >= 0200: port encoding unspecified".into())),
+            // one character with that code (Latin-1 reading of a byte value); above 0377 it is no byte
+            Some(c) if *v <= 0o377 => c.to_string(),
+            _ => return Err(Undefined::Other("octal escape above 0377: not a byte value, unspecified".into())),
         },
     })
 }
